@@ -307,6 +307,45 @@ func runC03(c *core.Ctx) {
 	if c.Expired() {
 		c.Cap(fmt.Sprintf("deadline during token strings (executable alphabet complete: %v)", doneExe))
 	}
+	// ---- (i-b) fragment graphs: every assignment of bodies (<= 2, thorough 3, items out of {i, ...F0, ...F1, ...F2, ... on Query{...F1}})
+	// to three fragments, spread from the operation: all small spread graphs, cyclic and acyclic, with the cycle-closing spread
+	// before and after harmless ones
+	{
+		items := []string{"i", "...F0", "...F1", "...F2", "... on Query{...F1}"}
+		maxBody := 2
+		if c.Thorough() {
+			maxBody = 3
+		}
+		var bodies []string
+		var brec func(p []string)
+		brec = func(p []string) {
+			if len(p) > 0 {
+				bodies = append(bodies, strings.Join(p, " "))
+			}
+			if len(p) == maxBody {
+				return
+			}
+			for _, it := range items {
+				brec(append(append([]string{}, p...), it))
+			}
+		}
+		brec(nil)
+		var gi int64
+		for _, b0 := range bodies {
+			for _, b1 := range bodies {
+				if c.Expired() {
+					break
+				}
+				for _, b2 := range bodies {
+					gi++
+					if int(gi%int64(c.NShards)) != c.Shard {
+						continue
+					}
+					st.resolveAll("fragment-graph", "{ s ...F0 } fragment F0 on Query { "+b0+" } fragment F1 on Query { "+b1+" } fragment F2 on Query { "+b2+" }", "", nil)
+				}
+			}
+		}
+	}
 	// ---- corpus
 	var exeCorpus []string
 	for _, d := range world.BaseDocs() {
